@@ -39,7 +39,8 @@ func buildMarshalCase(k *MarshalCase) (reflect.Type, reflect.Value) {
 // otherValue is marshalled between producing and examining an output (buffer re-use across calls).
 var otherValue = map[string]interface{}{"zzzzzzzzzzzzzzzz": []int{7, 8, 9, 10, 11, 12}, "yyyyyyyy": "................................................................"}
 
-var encNames = []string{"MarshalText(value)", "MarshalText(pointer)", "MarshalBinary(value)", "MarshalBinary(pointer)", "MarshalBinaryLST", "Encoder stream (text)", "Encoder stream (binary)"}
+var encNames = []string{"MarshalText(value)", "MarshalText(pointer)", "MarshalBinary(value)", "MarshalBinary(pointer)", "MarshalBinaryLST", "Encoder stream (text)", "Encoder stream (binary)",
+	"MarshalTo(text Writer)", "MarshalTo(binary Writer)", "NewEncoderOpts(pretty Writer)", "NewBinaryEncoderLST"}
 
 // runMarshalEnc runs one encoding path; "" when the property holds.
 func runMarshalEnc(t reflect.Type, v reflect.Value, enc int, k *MarshalCase) (verdict string) {
@@ -48,7 +49,7 @@ func runMarshalEnc(t reflect.Type, v reflect.Value, enc int, k *MarshalCase) (ve
 			verdict = "panic: " + ionx.PanicSite(rec)
 		}
 	}()
-	binary := enc == 2 || enc == 3 || enc == 4 || enc == 6
+	binary := enc == 2 || enc == 3 || enc == 4 || enc == 6 || enc == 8 || enc == 10
 	image, ok := imageOf(v, "", !binary)
 	if !ok {
 		return ""
@@ -75,6 +76,38 @@ func runMarshalEnc(t reflect.Type, v reflect.Value, enc int, k *MarshalCase) (ve
 			}
 		}
 		out, err = ion.MarshalBinaryLST(v.Interface(), ion.NewLocalSymbolTable(nil, texts))
+	case 7, 8: // MarshalTo on a Writer of the caller, who finishes it
+		var buf bytes.Buffer
+		var w ion.Writer
+		if enc == 7 {
+			w = ion.NewTextWriter(&buf)
+		} else {
+			w = ion.NewBinaryWriter(&buf)
+		}
+		if err = ion.MarshalTo(w, v.Interface()); err == nil {
+			err = w.Finish()
+		}
+		out = buf.Bytes()
+	case 9: // NewEncoderOpts over a Writer
+		var buf bytes.Buffer
+		e := ion.NewEncoderOpts(ion.NewTextWriterOpts(&buf, ion.TextWriterPretty), ion.EncoderOpts(0))
+		if err = e.Encode(v.Interface()); err == nil {
+			err = e.Finish()
+		}
+		out = buf.Bytes()
+	case 10: // NewBinaryEncoderLST
+		texts := model.SymbolTexts([]*model.Value{image})
+		for _, tx := range texts {
+			if tx == "" {
+				return ""
+			}
+		}
+		var buf bytes.Buffer
+		e := ion.NewBinaryEncoderLST(&buf, ion.NewLocalSymbolTable(nil, texts))
+		if err = e.Encode(v.Interface()); err == nil {
+			err = e.Finish()
+		}
+		out = buf.Bytes()
 	case 5, 6:
 		var buf bytes.Buffer
 		var e *ion.Encoder
@@ -124,13 +157,31 @@ func runMarshalEnc(t reflect.Type, v reflect.Value, enc int, k *MarshalCase) (ve
 			return ""
 		}
 	}
-	if d := model.DiffOpt(want, got, model.EqOpts{UnorderedStructs: binary || enc == 5}); d != "" {
+	if d := model.DiffOpt(want, got, model.EqOpts{UnorderedStructs: binary || enc == 5 || enc == 7 || enc == 9}); d != "" {
 		return "the output does not denote the value's Ion image: " + d
 	}
 	// (2) Unmarshal returns an equal value
 	if stream == 1 {
 		back := reflect.New(t)
-		if err := ion.Unmarshal(out, back.Interface()); err != nil {
+		// every way in has to agree: rotate through the entry points
+		var uerr error
+		switch (k.CaseSeed + int64(enc)) % 5 {
+		case 0:
+			uerr = ion.Unmarshal(out, back.Interface())
+		case 1:
+			if binary {
+				uerr = ion.Unmarshal(out, back.Interface())
+			} else {
+				uerr = ion.UnmarshalString(string(out), back.Interface())
+			}
+		case 2:
+			uerr = ion.UnmarshalFrom(ion.NewReaderBytes(out), back.Interface())
+		case 3:
+			uerr = ion.NewTextDecoder(bytes.NewReader(out)).DecodeTo(back.Interface())
+		default:
+			uerr = ion.NewDecoder(ion.NewReader(bytes.NewReader(out))).DecodeTo(back.Interface())
+		}
+		if err := uerr; err != nil {
 			return "Unmarshal of the marshalled bytes failed: " + err.Error()
 		}
 		if d := equalGo(v, back.Elem(), "v", false); d != "" {
